@@ -163,8 +163,8 @@ def gen_case(draw):
         mn = draw(st.one_of(bad, st.integers(1, 4)))
         mx = draw(st.one_of(bad.filter(lambda b: b[1] != 'zero'), st.none(), st.integers(1, 5)))
         return {'mode': 'invalid', 'variant': variant, 'include_sign': inc, 'start': start, 'end': end, 'min': mn, 'max': mx}
-    mn = draw(st.integers(1, 4))
-    mx = draw(st.one_of(st.none(), st.integers(mn, mn + 3)))
+    mn = draw(st.one_of(st.integers(1, 4), st.integers(1, 4), st.sampled_from([9, 10, 11, 16, 32, 33, 64, 100])))
+    mx = draw(st.one_of(st.none(), st.integers(mn, mn + 3), st.sampled_from([mn, mn + 9, mn + 10, mn + 90, 255, 256, 1000]).filter(lambda v: v >= mn)))
     num = numeral_near(start, end)
     digits = st.text(st.sampled_from('0123456789'), min_size=0, max_size=9)
 
